@@ -289,6 +289,7 @@ def _midrun(k, action, interactive):
 
 def w_midrun(k: int, action: int, interactive: bool) -> str:
     """
+    pre: PARTITION is None or (action == PARTITION[0] and interactive == PARTITION[1])
     pre: 0 <= k < 200 and 0 <= action < 2
     post: _ == ''
     """
@@ -314,7 +315,7 @@ def obligations(tier):
         CH('W_state_x_alt_x_cmd', MOD, 'w_main', timeout=600, engine='W', regime='selector',
            encodes=K.PUT_FUNCS + K.LIST_FUNCS + K.RESTORE_FUNCS + K.EMPTY_FUNCS + K.RM_FUNCS, stubs=K.STUBS,
            bounds='9 .Trash states (incl. setgid/setuid without sticky) x 3 .Trash-uid states x 11 command/argument combinations (all five commands) x volume root plain / sticky'),
-        CH('W_put_rechecks_per_argument', MOD, 'w_midrun', timeout=900, engine='W', regime='selector', encodes=K.PUT_FUNCS, stubs=K.STUBS,
+        CH('W_put_rechecks_per_argument', MOD, 'w_midrun', timeout=900, partitions=[(a, i) for a in range(2) for i in (False, True)], engine='W', regime='selector', encodes=K.PUT_FUNCS, stubs=K.STUBS,
            bounds='trash-put a b c (with/without -i); .Trash turns insecure (sticky bit dropped | replaced by a symlink) before system call k, k in 0..199 '
                   '(runs are shorter: checked); an argument whose processing starts after that instant must not land in .Trash/$uid'),
     ]
